@@ -134,19 +134,22 @@ def r1_field_agreement(r, facts):
         delegs = sorted({(t.get('callee_full') or '') for loc, t in rd.calls() if (t.get('callee') or '') == TRAIT + '::init'})
         r.inst('SocketAddr::init delegates %s' % delegs, rd.where())
         r.require(any('SocketAddrV4' in d for d in delegs) and any('SocketAddrV6' in d for d in delegs), ty + '/reader-dispatch', 'init does not delegate to both V4 and V6', rd.where())
-        # reader: AF_INET edge -> V4
-        er = ExprBuilder(rd, multi='phi')
-        ok = False
-        for b, blk in enumerate(rd.blocks):
-            if blk['cleanup'] or blk['term']['k'] != 'switch':
-                continue
-            e = er.operand(blk['term']['discr'])
-            if e[0] == 'bin' and e[1] in ('Eq', 'Ne') and 'AF_INET' in str(e) and 'AF_INET6' not in str(e):
-                vals = {int(v): tg for v, tg in blk['term']['targets']}
-                t_eq = vals.get(1, blk['term']['otherwise']) if e[1] == 'Eq' else vals.get(0)
-                for loc, t in rd.calls():
-                    if (t.get('callee') or '') == TRAIT + '::init' and 'SocketAddrV4' in (t.get('callee_full') or ''):
-                        ok = rd.edge_dominates((b, t_eq), loc)
+        # reader: decided by value — with the family read from the storage fixed to AF_INET only the V4 decoder is
+        # reachable, with AF_INET6 only the V6 decoder (`if family == AF_INET`, `match family { .. }`, a helper alike)
+        def fam_subj(e):
+            if fam.last_field(e) in ('sin6_family', 'sin_family', 'sa_family', 'ss_family'):
+                return True
+            return e[0] == 'call' and e[1].endswith('::read') and any(x[0] == 'arg' and x[1] == 1 for x in subexprs(e)) \
+                and any(x[0] == 'call' and x[1].rsplit('::', 1)[-1] in ('byte_offset', 'byte_add', 'offset', 'add') for x in subexprs(e))
+        ok = True
+        for v, want in ((2, 'SocketAddrV4'), (10, 'SocketAddrV6')):
+            g, decided = specialise_value(rd, fam_subj, v, ExprBuilder(rd), bits=16)
+            reach = g.reachable_blocks(0)
+            got = sorted({('SocketAddrV4' if 'SocketAddrV4' in (t.get('callee_full') or '') else 'SocketAddrV6') for loc, t in g.calls()
+                          if loc[0] in reach and (t.get('callee') or '') == TRAIT + '::init' and not g.blocks[loc[0]]['cleanup']})
+            r.inst('family=%d decodes as %s' % (v, got), rd.where())
+            if got != [want] or not decided:
+                ok = False
         r.require(ok, ty + '/reader-family', 'the AF_INET branch of SocketAddr::init does not decode as V4', rd.where())
     r.floor(6)
 
@@ -175,9 +178,16 @@ def r1b_unix_layout(r, facts):
     ew = ExprBuilder(w, multi='phi')
     copies = [(loc, t) for loc, t in w.calls() if (t.get('callee') or '').endswith('copy_from_slice')]
     wr = {}
+    from .kernel import correlated_alternatives
+    pairs = []
     for loc, t in copies:
-        dst, src = ew.operand(t['args'][0]), ew.operand(t['args'][1])
+        # one entry per (offset, bytes) alternative when both come out of one tuple (`let (off, bytes) = ..`)
+        pairs += [(loc, t, dst, src) for dst, src in correlated_alternatives(w, [t['args'][0], t['args'][1]])]
+    for loc, t, dst, src in pairs:
         kind = 'abstract' if 'as_abstract_name' in str(src) else ('pathname' if 'as_pathname' in str(src) else '?')
+        if kind == '?' and len(pairs) > len(copies) and not any(x[0] in ('arg', 'call', 'local') for x in subexprs(src)) \
+                and any(x[0] == 'const' and (x[3] or '').startswith('&[u8; 0]') for x in subexprs(src)):
+            continue  # the unnamed address: an empty constant slice, nothing is written
         wr[kind] = (_start_offset(dst), loc)
         r.inst('writer: %s name at sun_path[%d..]' % (kind, wr[kind][0]), w.where(loc))
         r.require('sun_path' in str(dst), 'unix/writer-target:%s' % kind, 'the %s name is not copied into sun_path' % kind, w.where(loc))
@@ -231,6 +241,17 @@ def r1b_unix_layout(r, facts):
     r.floor(4)
 
 
+def _len_value(facts, e):
+    """numeric value of a length expression made of casts, constants and size_of::<T>() (from the layout facts)"""
+    while e[0] == 'cast':
+        e = e[4]
+    if e[0] == 'const':
+        return e[1]
+    if e[0] == 'call' and e[1].startswith('std::mem::size_of::<') and e[1].endswith('>'):
+        return facts.layouts.get(e[1][len('std::mem::size_of::<'):-1], (None,))[0]
+    return None
+
+
 def r2_ptr_len(r, facts):
     sizes = {'std::net::SocketAddrV4': 'libc::sockaddr_in', 'std::net::SocketAddrV6': 'libc::sockaddr_in6',
              'std::os::unix::net::SocketAddr': 'libc::sockaddr_un'}
@@ -255,21 +276,28 @@ def r2_ptr_len(r, facts):
             elif ty == 'std::net::SocketAddr' and meth == 'as_mut_ptr':
                 r.require(szs == ['std::mem::size_of::<libc::sockaddr_in6>'], '%s::%s/len' % (ty, meth), 'receive storage length is %s, expected the larger sockaddr_in6' % szs, f.where())
             elif ty == 'std::net::SocketAddr':
-                r.require(szs == ['std::mem::size_of::<libc::sockaddr_in6>', 'std::mem::size_of::<libc::sockaddr_in>'], '%s::%s/len' % (ty, meth), 'length alternatives are %s, expected sockaddr_in / sockaddr_in6 by family' % szs, f.where())
-                # decided by value: with the family field fixed to AF_INET only size_of::<sockaddr_in> is reachable,
-                # with AF_INET6 only size_of::<sockaddr_in6> (if/else, match, or any other spelling)
+                # decided by value: with the family field fixed to AF_INET the length returned is the size of sockaddr_in,
+                # with AF_INET6 that of sockaddr_in6 (if/else, match, a flag, size_of calls or named constants alike)
                 def subj(e):
                     if fam.last_field(e) == 'sin6_family':
                         return True
                     return e[0] == 'call' and e[1].endswith('::from') and e[2] and fam.last_field(e[2][0]) == 'sin6_family'
                 ok = True
-                for v, want in ((2, 'std::mem::size_of::<libc::sockaddr_in>'), (10, 'std::mem::size_of::<libc::sockaddr_in6>')):
+                for v, st in ((2, 'libc::sockaddr_in'), (10, 'libc::sockaddr_in6')):
                     g, decided = specialise_value(f, subj, v, ExprBuilder(f), bits=32)
+                    eg = ExprBuilder(g, multi='phi')
                     reach = g.reachable_blocks(0)
-                    got = sorted({(t.get('callee_full') or '') for loc, t in g.calls() if loc[0] in reach and (t.get('callee_full') or '').startswith('std::mem::size_of::<libc::sockaddr_in')})
-                    r.inst('family=%d -> %s' % (v, got), f.where())
-                    if got != [want] or not decided:
+                    got = None
+                    for loc, s_ in g.assigns():
+                        if s_['lhs']['l'] == 0 and not s_['lhs']['p'] and loc[0] in reach:
+                            rt = eg.rvalue(s_['rv'])
+                            if rt[0] == 'agg' and len(rt[3]) == 2:
+                                got = _len_value(facts, rt[3][1])
+                    want = facts.layouts.get(st, (None,))[0]
+                    r.inst('family=%d -> length %s (size of %s: %s)' % (v, got, st, want), f.where())
+                    if got is None or got != want or not decided:
                         ok = False
+                        r.bad('%s::%s/len' % (ty, meth), 'with sin6_family == %d the length handed to the kernel is %s, expected size_of::<%s>() = %s' % (v, got, st, want), f.where())
                 r.require(ok, '%s::%s/family' % (ty, meth), 'sockaddr_in length is not selected by sin6_family == AF_INET', f.where())
     # storage sizes match the structs (layout facts)
     for ty, st in sizes.items():
